@@ -216,6 +216,7 @@ func init() {
 			g(rep, "TX-PAIRING", func() { ruleTXPAIRING(p, rep) })
 			g(rep, "KEEPWRITEPAGE", func() { ruleKEEPWRITEPAGE(p, rep) })
 			g(rep, "CONFINEMENT", func() { ruleCONFINEMENT(p, rep) })
+			g(rep, "DELEGATE-ROLES", func() { ruleDELEGATEROLES(p, rep) })
 			g(rep, "EVENT-BOUNDARY", func() { ruleEVENTBOUNDARY(p, rep) })
 			g(rep, "LOCKS", func() {
 				ruleLOCKS(p, rep, func(r lockRoot) bool {
